@@ -247,7 +247,7 @@ func genC12Hdr(x *Ctx) {
 		one(func(c *Case) (*vp9Hdr, []byte) { return nil, []byte{byte(b)} })
 		one(func(c *Case) (*vp9Hdr, []byte) { return nil, []byte{byte(b), 0x49, 0x83, 0x42, byte(b), 0xFF, 0xFF, 0xFF, 0xFF} })
 	}
-	for i, n := 0, x.N(4000, 200000); i < n; i++ {
+	for i, n := 0, x.N(15000, 200000); i < n; i++ {
 		one(func(c *Case) (*vp9Hdr, []byte) {
 			r := c.R
 			switch r.Intn(8) {
@@ -582,13 +582,13 @@ func genC12Dec(x *Ctx) {
 			return d, []byte{9, 9, 9}
 		}, 40)
 	}
-	for i, n := 0, x.N(6000, 300000); i < n; i++ {
+	for i, n := 0, x.N(15000, 300000); i < n; i++ {
 		vp9DecCase(x, func(c *Case) (vp9Desc, []byte) {
 			return randVp9Desc(c.R), c.R.Bytes(c.R.Size(40, 0, 1))
 		}, 1)
 	}
 	// random descriptors, random cut
-	for i, n := 0, x.N(2000, 100000); i < n; i++ {
+	for i, n := 0, x.N(4000, 100000); i < n; i++ {
 		vp9DecCase(x, func(c *Case) (vp9Desc, []byte) {
 			return randVp9Desc(c.R), c.R.Bytes(c.R.Size(6, 0, 1))
 		}, 5)
@@ -716,7 +716,7 @@ func genC12Rt(x *Ctx) {
 			}
 		}
 	}
-	for i, n := 0, x.N(3000, 200000); i < n; i++ {
+	for i, n := 0, x.N(10000, 200000); i < n; i++ {
 		vp9RtCase(x, func(c *Case) (bool, int, []vp9Call) {
 			r := c.R
 			flex := r.Bool()
@@ -842,7 +842,7 @@ func genC08Vp9(x *Ctx) {
 			}
 		}
 	}
-	for i, n := 0, x.N(2500, 150000); i < n; i++ {
+	for i, n := 0, x.N(8000, 150000); i < n; i++ {
 		one(func(c *Case) (bool, int, []PayCall) {
 			r := c.R
 			var calls []PayCall
@@ -897,7 +897,7 @@ func genC09Vp9(x *Ctx) {
 		maxLen, block = 3, 512
 	}
 	shortStrings(maxLen, block, func(ss [][]byte) { seq(func(c *Case) [][]byte { return ss }) })
-	for i, n := 0, x.N(2500, 150000); i < n; i++ {
+	for i, n := 0, x.N(8000, 150000); i < n; i++ {
 		seq(func(c *Case) [][]byte {
 			r := c.R
 			var ps [][]byte
